@@ -61,7 +61,13 @@ def gen(seed: int, tier: str, idx=None):
     else:
         g.emit({"op": "new_doc", "rows": rows, "cols": cols, "hr": min(rng0.choice([0, 1, 1, 2]), rows), "hc": min(rng0.choice([0, 1, 1]), cols)})
     steps = rng0.randint(4, 24 if tier == "thorough" else 16)
-    weights = {"row_h": 6, "col_w": 6, "headers": 2, "caption": 3, "rename": 2, "add_table": 2, "border": 4, "observe": 5, "save": 3, "restart": 3, "write": 1, "struct": 2}
+    weights = {"row_h": 6, "col_w": 6, "headers": 2, "caption": 3, "rename": 2, "add_table": 2, "border": 4, "observe": 5, "save": 3, "restart": 3, "write": 1, "struct": 2, "merge": 1.5}
+    if not on_fixture and rng0.random() < 0.5:
+        # merged ranges, also across the header/body boundary, in tables without strokes (the two exclude each other here)
+        cfg["aspects"] = ["grid", "names", "look", "geom", "merges"]
+        g.ms.aspects = set(cfg["aspects"])
+    else:
+        weights["merge"] = 0
     for k in ("border", "observe", "struct"):
         if rng0.random() < 0.35:
             weights[k] = 0
@@ -113,6 +119,11 @@ def gen(seed: int, tier: str, idx=None):
                     "scope": rng.choice(["cell", "row", "table"]), "r": rng.randrange(20), "c": rng.randrange(20)})
         elif kind == "write":
             g.emit({"op": "write", "d": 0, "s": s, "t": t, "r": g.index(tm.nrows), "c": g.index(tm.ncols), "v": V.enc(g.value())})
+        elif kind == "merge":
+            if not tm.hedge and not tm.vedge and not tm.styles:
+                from dsim.profiles.merge import gen_rect
+
+                g.emit({"op": "merge", "d": 0, "s": s, "t": t, "rects": [gen_rect(g, tm, rng)]})
         elif kind == "struct":
             # rows/columns inserted or removed before, between and after sized ones: the model forgets what sits at or
             # beyond the edit, the open document's own report must still survive the save
